@@ -50,6 +50,12 @@ CLAIMED = {
         technique="symbolic evaluation of static initialisers (syn) against an oracle table, decided by computer algebra",
         design_ref="DESIGN.md section 4 C14",
     ),
+    "C16": dict(
+        level="other",
+        text="The matcher's structure decided from source: CalibrationIdentifier::matches reads name, modifiers, parameters and qubits of both the calibration and the gate; its per-qubit table, evaluated with first-match semantics over all 9 kind pairs, equals the documented table; get_match_for_gate visits in definition order and replaces the incumbent on >= of fixed-qubit counts (MatchedCalibration counts exactly Fixed qubits); get_match_for_measurement iterates in reverse, requires equal name and target presence, classifies exact vs wildcard and returns exact.or(wildcard). Parameter equality after simplification is not decided (C12).",
+        technique="field coverage over MIR reads + table extraction from match arms (syn) compared with a documented-rule oracle",
+        design_ref="DESIGN.md section 4 C16",
+    ),
     "C17": dict(
         level="other",
         text="Completeness of the substitution decided structurally: the qubit-substitution match in the gate arm of expand_inner and Instruction::apply_to_expressions must name, in an explicit arm binding the relevant fields, every body-capable Instruction variant whose payload holds a Qubit / Expression (type-directed coverage); the measurement arm must read measurement.qubit and .target; its two sibling target rewrites must both be guarded (contradiction check); the instructions appended in recursively_expand_inner are the same on both sides of every build_source_map test; every expanded instruction re-enters expand_inner. Five confirmed defects are recorded as known findings. Correctness of the substituted values beyond dependence is not decided.",
